@@ -419,6 +419,16 @@ func (r *reader) readMap(n datamodel.Node, path string, length int64) model.Val 
 	if int64(len(ents)) != length {
 		r.issue(path, "length-vs-iter", "Length()=%d but the iterator yielded %d entries", length, len(ents))
 	}
+	// key nodes handed out earlier must still read the same after the iterator moved on
+	for _, e := range ents {
+		var ks string
+		var kerr error
+		r.call(path, "key.AsString(re-read)", func() { ks, kerr = e.kn.AsString() })
+		if kerr == nil && ks != e.k {
+			r.issue(path, "key-node-changed", "a key node read %q when the iterator returned it and %q after the iteration went on", e.k, ks)
+			break
+		}
+	}
 	seen := map[string]bool{}
 	for _, e := range ents {
 		cp := path + "/" + e.k
